@@ -420,6 +420,8 @@ func ruleC11(c *Ctx) {
 		// R8: what is decoded into the EncryptedAssertion struct is a detached copy of the visited element that keeps the
 		// namespace declarations it inherits (NSDetatch) — a plain Copy() drops xmlns:saml declared on the Response and
 		// the element no longer decodes, so an encrypted response is refused where its plaintext twin is accepted
+		c.rule("C11-R10", "a refused key store changes nothing: SetSPKeyStore / SetSPSigningKeyStore store their argument only on the accepting path and touch nothing else — a signer-less store left installed takes precedence in getDecryptCert and disables decryption for a correctly configured provider (shared setterContract, also C13-R6 / C14-R6 / C19-R4)")
+		setterContract(c, "C11-R10")
 		c.rule("C11-R9", "decryption is reached for every encrypted assertion the validators accept: on every accepting, validating path of ValidateEncodedResponse decryptAssertions runs (unconditionally — not behind a look at the undecoded, possibly compressed, bytes) on the right root and before the assertions are read (shared with C07-R2)")
 		nDec := shareFrom(c, "C11-R9", ruleC07, func(o *Obligation) bool { return o.Rule == "C07-R2" })
 		c.count("C11-R9/paths", nDec)
